@@ -625,9 +625,19 @@ Fixpoint first_match (ob : obsres) (preds : list (obsres * bool)) (i : Z) : Z :=
    objects whose observable content changed during the step (must be empty), subtrees *)
 Inductive trie : Type := Node (p : op) (ob : obsres) (changed : list Z) (kids : list trie).
 
+(* `changed` = [-1] is the harness's mark for one class of steps that are decided on observables of the real objects:
+   TimeArray.insert(a, pos, b) where a has no rows, the format's values are not floats (datetime, text) but a's value
+   array is float64 (an empty array rebuilt by subset / copy / insert / conversion loses its dtype) and b has rows.
+   The specification inserts; the source raises (np.insert of datetimes / strings into a float array): verdict 50,
+   no variant takes the step (nothing was created). *)
+Definition is_mark (changed : list Z) : bool := match changed with [m] => m =? -1 | _ => false end.
+
 Fixpoint check_trie (t : tables) (sts : list (state tV tJ * bool)) (n : trie) : list Z :=
   match n with
   | Node p ob changed kids =>
+    if is_mark changed && obsres_eqb ob OErr && match p with Insert _ _ _ => true | _ => false end then
+      50 :: flat_map (check_trie t sts) kids
+    else
     let rs := map (fun qs => (mstep t (fst qs) (fst (snd qs)) p, snd (snd qs))) (combine variants sts) in
     let preds := map (fun r => (obs_res t (snd (fst r)), snd r)) rs in
     let v := match changed with
